@@ -260,37 +260,36 @@ Section Linker.
 End Linker.
 
 (* ---------------- BaseLinker.__init__: span test and longest lags / leads ---------------- *)
-(* how Python evaluates `comparator.span != base.span` depends on the container type of the spans *)
-Inductive spankind : Type := SList | SRange | SArray.     (* list, range, NumPy array / pandas Index *)
+(* A span is a container of period labels.  Labels are modelled as integers; what Python compares element by element is
+   the ELEMENT the container yields: a built-in / NumPy integer (list, tuple, range, ndarray, pandas Index — equal as
+   soon as the numbers are), a pandas Period (PeriodIndex) or a pandas Timestamp (DatetimeIndex).  Elements of different
+   classes are never equal (`Period('2000') != 2000` is True, no exception). *)
+Inductive spankind : Type := SList | STuple | SRange | SArray | SIndex | SPeriodIndex | SDatetimeIndex.
 Record pspan := mkSpan { sp_kind : spankind; sp_labels : list Z }.
 Record subinfo := mkSub { si_span : pspan; si_LAGS : Z; si_LEADS : Z }.     (* class-level LAGS / LEADS *)
 
-Fixpoint zlist_eqb (a b : list Z) : bool :=
-  match a, b with [], [] => true | x :: a', y :: b' => Z.eqb x y && zlist_eqb a' b' | _, _ => false end.
+Definition elt_class (k : spankind) : nat :=
+  match k with SPeriodIndex => 1 | SDatetimeIndex => 2 | _ => 0 end.
+(* the sequence of elements iterating over the span yields: (class, number) *)
+Definition span_elems (a : pspan) : list (nat * Z) := map (fun z => (elt_class (sp_kind a), z)) (sp_labels a).
 
-(* truth value of `a != b`:  lists and ranges compare as sequences (a list never equals a range);
-   with a NumPy array / pandas Index on either side the comparison is element-wise and its truth value is
-   defined only for exactly one element (otherwise ValueError: ambiguous / shapes or lengths differ) *)
-Definition span_ne (a b : pspan) : outcome bool :=
-  match sp_kind a, sp_kind b with
-  | SList, SList | SRange, SRange => Ret (negb (zlist_eqb (sp_labels a) (sp_labels b)))
-  | SList, SRange | SRange, SList => Ret true
-  | _, _ => match sp_labels a, sp_labels b with
-            | [x], [y] => Ret (negb (Z.eqb x y))
-            | _, _ => Raise ValueError
-            end
-  end.
+Definition elem_ne (x y : nat * Z) : bool := negb (Nat.eqb (fst x) (fst y) && Z.eqb (snd x) (snd y)).     (* x != y *)
+(* any(x != y for x, y in zip(a, b)) *)
+Fixpoint any_ne (a b : list (nat * Z)) : bool :=
+  match a, b with x :: a', y :: b' => elem_ne x y || any_ne a' b' | _, _ => false end.
+
+(* since fix ee9fcdf:  len(comparator.span) != len(base.span) or any(x != y for x, y in zip(comparator.span, base.span))
+   — defined for every container kind (before, `comparator.span != base.span` had no truth value for arrays / indexes) *)
+Definition spans_differ (a b : pspan) : bool :=
+  negb (Nat.eqb (length (sp_labels a)) (length (sp_labels b))) || any_ne (span_elems a) (span_elems b).
 
 (* for id_ in identifiers: span test, then lags = max(lags, LAGS), leads = max(leads, LEADS) *)
 Fixpoint ctor_loop (base : pspan) (rest : list (sid * subinfo)) (lg ld : Z) : outcome (Z * Z) :=
   match rest with
   | [] => Ret (lg, ld)
   | (_, c) :: r =>
-      match span_ne (si_span c) base with
-      | Raise e => Raise e
-      | Ret true => Raise InitialisationError
-      | Ret false => ctor_loop base r (Z.max lg (si_LAGS c)) (Z.max ld (si_LEADS c))
-      end
+      if spans_differ (si_span c) base then Raise InitialisationError
+      else ctor_loop base r (Z.max lg (si_LAGS c)) (Z.max ld (si_LEADS c))
   end.
 
 (* returns (span, lags, leads) of the new linker *)
